@@ -11,8 +11,8 @@ PROGRAMS = ["forms"]
 RUNS = {"quick": 3000, "thorough": 150000}
 
 FNS = ["plain", "forloop", "fortuple", "nestloop", "whileloop", "tryexc", "bareexc",
-       "withcm", "retnone", "gen", "genloop", "callsother", "tup_tuple", "K.meth", "deco", "clo"]
-GEN_FNS = ("gen", "genloop")
+       "withcm", "retnone", "gen", "genloop", "genretry", "callsother", "tup_tuple", "K.meth", "deco", "clo"]
+GEN_FNS = ("gen", "genloop", "genretry")
 
 
 def loop_vars(fnir):
@@ -92,6 +92,10 @@ def gen(rng, tier, quarantine=()):
         keep = [s for s in sels if rng.random() < 0.7]
         sels = keep or sels
     ops = [{"op": "mk", "id": "p0", "sels": sels, "inv": "C06.meta"}, {"op": "enter", "id": "p0"}]
+    if "no-failing-subscriber" not in quarantine and rng.random() < 0.2 and not (short in GEN_FNS or is_gen):
+        # a subscriber of the probe fails on its k-th event: the activation it strikes ends by
+        # raising, and is still closed properly
+        ops.append({"op": "stage", "id": "p0", "kind": "whole", "cap": None, "raises": rng.randint(1, 10)})
     if "no-wrapper-form" not in quarantine and rng.random() < 0.3:
         # the wrapper form f(!#enter, #error, !!#exit), as a second probe
         wsel = {"levels": [{"fn": qual, "caps": [{"var": "#error", "as": "#error"}], "sibs": []}],
